@@ -459,5 +459,10 @@ def run(ctx):
     # ---------- 3. spawn.c docmd
     from rules import C18_spawn
     C18_spawn.run(ctx)
+    r6 = rep.rule('C18.6-child-output', 'R-BOUND', 'the spawners\' report(): of a delivery program\'s output only the len bytes it wrote are relayed, cut at the first NUL - bytes behind a NUL (or behind the output) can never become a second report with a delivery number of the child\'s choosing')
+    from rules import C20 as _c20r
+    for inst_, v_ in sorted(_c20r.report_read_sites(db, rep).items()):
+        r6.check(v_[0], inst_, v_[1], v_[2], v_[3])
+    r6.expect_min(2)
     rep.assume('getln(...,&match,0) with match set returns a buffer whose last byte is the separator',
                'memcmp/scan_ulong/fmtqfn have their documented meaning', 'plain char is signed (x86-64 Linux)')
